@@ -3,6 +3,7 @@
 Never commits anything to /repo; each patch is applied, checked and removed again."""
 import json, os, subprocess, sys, re
 ROOT = os.path.dirname(os.path.dirname(os.path.abspath(__file__)))
+REPO = os.environ.get('VERIF_REPO', '/repo')   # a scratch clone may stand in for /repo (with a scratch copy of /verif)
 rows = []
 for name in sorted(os.listdir(os.path.join(ROOT, 'seeded'))):
     d = os.path.join(ROOT, 'seeded', name)
@@ -10,15 +11,15 @@ for name in sorted(os.listdir(os.path.join(ROOT, 'seeded'))):
         continue
     meta = json.load(open(os.path.join(d, 'meta.json')))
     prop = meta['property']
-    st = subprocess.run(['git', '-C', '/repo', 'status', '--porcelain'], capture_output=True, text=True).stdout.strip()
+    st = subprocess.run(['git', '-C', REPO, 'status', '--porcelain'], capture_output=True, text=True).stdout.strip()
     if st:
         print('refusing: /repo has local modifications'); sys.exit(2)
-    subprocess.run(['git', '-C', '/repo', 'apply', os.path.join(d, 'patch.diff')], check=True)
+    subprocess.run(['git', '-C', REPO, 'apply', os.path.join(d, 'patch.diff')], check=True)
     try:
         r = subprocess.run([os.path.join(ROOT, 'check'), prop], capture_output=True, text=True)
         out = r.stdout + r.stderr
     finally:
-        subprocess.run(['git', '-C', '/repo', 'checkout', '--', '.'], check=True)
+        subprocess.run(['git', '-C', REPO, 'checkout', '--', '.'], check=True)
     viol = [l for l in out.splitlines() if l.startswith('VIOLATION')]
     summary = [l for l in out.splitlines() if re.match(r'C\d\d (quick|thorough):', l)]
     concrete = bool(viol) and 'no-failing-input-found' not in viol[0]
